@@ -27,6 +27,8 @@ class Explorer:
         self.inlined = set()
         self.called = set()
         self.notes = set()
+        self.known = []
+        self.pinned = None
 
     def push(self, prefix):
         self.worklist.append(prefix)
@@ -47,10 +49,13 @@ def ast_hash(node):
     return hashlib.sha256(ast.dump(node, include_attributes=False).encode()).hexdigest()[:16]
 
 
-def verify_contract(c, src_index, unroll=0, timeout_ms=20000, registry=REGISTRY, max_paths=4000):
+def verify_contract(c, src_index, unroll=0, timeout_ms=20000, registry=REGISTRY, max_paths=4000, known=(), pinned=None, budget_s=600):
     """returns dict(name, obligations[], paths, errors[], secs, ...)"""
     t0 = time.time()
     ex = Explorer(timeout_ms, max_paths)
+    ex.known = list(known)
+    ex.pinned = pinned
+    ex.last_outcomes = []
     ex.push(())
     fn = c.fn
     fnode = src_index.find(fn)
@@ -61,6 +66,9 @@ def verify_contract(c, src_index, unroll=0, timeout_ms=20000, registry=REGISTRY,
         prefix = ex.worklist.pop()
         if ex.paths >= max_paths:
             ex.errors.append(f'path budget {max_paths} exhausted')
+            break
+        if time.time() - t0 > budget_s:
+            ex.errors.append(f'time budget {budget_s}s exhausted after {ex.paths} paths')
             break
         run = Run(ex, prefix)
         it = Interp(run, registry, src_index, dict(c.policy))
@@ -89,6 +97,7 @@ def verify_contract(c, src_index, unroll=0, timeout_ms=20000, registry=REGISTRY,
                 outcome = ('return', res)
             except PyExc as e:
                 outcome = ('raise', e)
+            ex.last_outcomes.append((outcome[0], outcome[1].cls.__name__ if outcome[0] == 'raise' else _show(outcome[1], run)))
             check_outcome(c, cx, outcome, p, run, ex)
             ex.paths += 1
         except PathEnd:
@@ -109,7 +118,27 @@ def verify_contract(c, src_index, unroll=0, timeout_ms=20000, registry=REGISTRY,
     return dict(name=c.name, fn_hash=ast_hash(fnode), file=fn.__code__.co_filename, line=fnode.lineno,
                 obligations=ex.obligations, paths=ex.paths, exits=ex.exits, errors=ex.errors,
                 secs=time.time() - t0, inlined=sorted(ex.inlined), called=sorted(ex.called),
-                notes=sorted(ex.notes), vacuous=vacuous, props=list(c.props))
+                notes=sorted(ex.notes), vacuous=vacuous, props=list(c.props), outcomes=ex.last_outcomes[:8])
+
+
+def _show(v, run):
+    """engine value -> printable (used in pinned replay runs where everything is concrete)"""
+    try:
+        v = simp(v) if is_sym(v) else v
+        if isinstance(v, View):
+            n = simp(zint(v.length))
+            if isinstance(n, int) and n <= 512:
+                bs = [simp(v.at(run.heap, k)) for k in range(n)]
+                if all(isinstance(b, int) for b in bs):
+                    return {'hex': bytes(bs).hex(), 'kind': v.kind}
+            return f'<{v.kind} len={n}>'
+        if isinstance(v, tuple):
+            return [_show(x, run) for x in v]
+        if isinstance(v, (int, str, bool, type(None))):
+            return v
+        return repr(v)[:120]
+    except Exception as e:      # noqa
+        return f'<unprintable {type(v).__name__}>'
 
 
 def check_outcome(c, cx, outcome, p, run, ex):
